@@ -86,6 +86,14 @@ def run(ctx) -> None:
     r03_3(ctx)
     r03_4(ctx)
     r03_5(ctx)
+    # a handler that can intercept what user code raises treats the flavours differently (an
+    # AttributeError from inside an async manager's __aenter__ read as "not async" ...): C06's census
+    from . import c06
+    from .common import Relabel
+    ctx.rule("R03.6", "no except handler can intercept an exception raised by user code (handler census of C06, shared)")
+    sub_ctx = Relabel(ctx, "R03.6", only=("R06.1",))
+    for u in real_units(ctx):
+        c06._census(sub_ctx, u)
     ctx.floor("awaitified_calls", 8)
     ctx.floor("awaitify_sites", 10)
     ctx.floor("iterable_params", 25)
